@@ -57,6 +57,14 @@ def run(repo, chk):
         seen, _ = Q.search([n], exc=())
         chk.ob('a', h.ref, 'no second reject event on the same path', not any(o in seen for o in others), loc(h, n.ast),
                discr=f'single-reject:{name}:{_case(n)}')
+    # e: a Content-Length that is not a number is rejected (int() raises → safety net → 500) before anything is dispatched
+    chk.rule('C14.e', 'the announced Content-Length is converted with int() on every path to the request fire (a malformed length never reaches a request handler)')
+    conv = [n for n in g.nodes if n.kind in ('stmt', 'test') and n.ast is not None and any(
+        call_name(c) == 'int' and c.args and 'Content-Length' in src(c.args[0]) for c in calls_in(n.ast))]
+    for r in rf:
+        q = Q.reachable_without(g, r, avoid_node=lambda n: n in conv)
+        chk.ob('e', h.ref, 'every path to the request fire evaluates int(<Content-Length header>)', q is None and bool(conv), loc(h, r.ast),
+               path=pat.path_lines(q) if q else None, discr='content-length-validated')
     # b: parse-error rejects drop the parser first
     dels = [n for n in g.nodes if n.kind == 'stmt' and isinstance(n.ast, ast.Delete) and any(src(t) == f'self._buffers[{sock}]' for t in n.ast.targets)]
     for n, name in rejects:
